@@ -9,10 +9,10 @@ import (
 
 // ifRegion describes a side-effect-free diamond/triangle that is executed as ite.
 type ifRegion struct {
-	ok         bool
-	thenB      *ssa.BasicBlock // nil when the true edge goes straight to join
-	elseB      *ssa.BasicBlock
-	join       *ssa.BasicBlock
+	ok    bool
+	thenB *ssa.BasicBlock // nil when the true edge goes straight to join
+	elseB *ssa.BasicBlock
+	join  *ssa.BasicBlock
 }
 
 type summary struct{}
